@@ -16,7 +16,7 @@ func init() {
 	core.Register(&core.Check{
 		ID: "C15", Level: "other", Title: "Transaction execution is atomic",
 		Explain: "Guard dominance + who-may-call: in StateStore.HandleInvokeTransaction the CacheDB.Commit call, the store of CONTRACT_STATE_SUCCESS, the append of the service's notifications and every return of a non-nil cross-hash list are dominated by the pass edge of NativeService.Invoke err==nil; in executeBlock every handleTransaction call is preceded by cache.Reset() on every path (from entry and around the loop); handleTransaction returns the notify/crossHashes only when the overlay reports no error; CacheDB.Commit has exactly one caller; OverlayDB.Put/Delete are called only from CacheDB.Commit; no function reachable (VTA call graph) from a registered native handler calls CacheDB.Commit, CacheDB.Reset, OverlayDB.Put/Delete/CommitTo or StateStore.Batch*/CommitTo; in NativeService.Invoke the merge of the callee's notifications and cross hashes into the saved lists is dominated by handler err==nil; NativeCall (contract-to-contract call) has zero call sites (if one appears its error must be propagated). NOT decided: event-store side ordering (SaveNotify).",
-		Run: runC15,
+		Run:     runC15,
 	})
 }
 
